@@ -12,7 +12,7 @@ ID = "C14"
 LEVEL = "exploration"
 RULE = ("ordered 1:1 binding lists (empty prefix, IRIs with and without '/' or '#', non-ASCII, namespaces that are also "
         "statement prefixes, more bindings than table slots) x statement sequences x generic sink and rdflib Graph/Dataset x "
-        "TRIPLES/QUADS/GRAPHS x small tables; one case in five writes 2-5 sinks with repeating bindings through ONE stream. Oracle: the Prefix events of parse_jelly_flat (both integrations) == the source "
+        "TRIPLES/QUADS/GRAPHS x small tables; one case in five writes 2-5 sinks with repeating bindings through ONE stream; one in seven writes an rdflib Dataset through a TRIPLES stream (logical GRAPHS / SUBJECT_GRAPHS / FLAT_TRIPLES). Oracle: the Prefix events of parse_jelly_flat (both integrations) == the source "
         "bindings (prefix, IRI string) in order; sink.namespaces after sink.parse likewise; re-serializing what was read "
         "reproduces the same declarations; statements with declarations on == statements with declarations off == input; "
         "with the option off the independent decoder sees no namespace row and version 1 (version 2 with it on). rdflib "
@@ -246,6 +246,48 @@ def judge_rdflib(cfg, stmts, ns, mode):
     return None
 
 
+def dataset_as_triples_case(rng):
+    """An rdflib Dataset written through a TRIPLES stream (logical GRAPHS / SUBJECT_GRAPHS / FLAT_TRIPLES): the dataset's
+    graphs are unpacked into triples (graph names are not part of a TRIPLES stream); its bindings are still declared."""
+    v = gen.Vocab(rng, "rdf11")
+    stmts = gen.statements(rng, rng.randint(1, 12), 4, "rdf11", vocab=v)
+    ns = workloads.bindings(rng, v.ns if rng.random() < .6 else None, k=rng.randint(1, 6))
+    triples = [s[:3] for s in stmts]
+    np_, nn, nd = gen.need_of(triples, 1, True, [("ns", a, b) for a, b in ns])
+    cfg = {"integration": "rdflib", "physical": 1, "store_dataset": True,
+           "entry": rng.choice(["graph_serialize", "graph_serialize_options", "stream_frames_store", "grouped_to_file"]),
+           "frame_size": rng.choice([1, 3, 250]), "preset": (max(8, nn) + rng.choice([0, 50]), max(1, np_) + rng.choice([0, 1, 10]), max(nd, 1) + 2),
+           "delimited": True, "logical": rng.choice([3, 13, 1]), "generalized": False, "rdf_star": False, "ns": True,
+           "stream_name": "", "params_build": "direct"}
+    return cfg, stmts, ns
+
+
+def judge_dataset_as_triples(cfg, stmts, ns):
+    on, off = dict(cfg, ns=True), dict(cfg, ns=False)
+    try:
+        d_on = pj.serialize(on, stmts, ns)
+        d_off = pj.serialize(off, stmts, ns)
+    except Exception as e:  # noqa: BLE001
+        return {"clause": "serializer-raised", "summary": f"{type(e).__name__}: {e}"}
+    want_ns = [(p, i) for p, i in ns]
+    want_st = {T.norm_stmt(s[:3]) for s in stmts}
+    for integ in ("rdflib", "generic"):
+        try:
+            ev_on = pj.parse(integ, "flat", d_on)
+            ev_off = pj.parse(integ, "flat", d_off)
+        except Exception as e:  # noqa: BLE001
+            return {"clause": "parser-raised", "summary": f"{integ}: {type(e).__name__}: {e}"}
+        if prefix_events(ev_on) != want_ns:
+            return _ns_diff("prefix-events-differ", f"{integ}:flat (Dataset through a TRIPLES stream, logical {cfg['logical']}, "
+                                                    f"{cfg['entry']})", prefix_events(ev_on), want_ns)
+        if prefix_events(ev_off):
+            return {"clause": "declaration-with-option-off", "summary": f"{integ}: Prefix events although the option is off"}
+        if set(stmts_of(ev_on)) != want_st or set(stmts_of(ev_off)) != want_st:
+            return {"clause": "statements-changed", "summary": f"{integ}: triples of a Dataset written through a TRIPLES stream differ "
+                                                               "with declarations on/off"}
+    return _wire_checks(d_on, d_off, True, bool(ns))
+
+
 def judge_multi(cfg, groups, nss):
     """Several sinks with (repeating) bindings through ONE stream: each sink's declarations are delivered again, in order."""
     on, off = dict(cfg, ns=True), dict(cfg, ns=False)
@@ -290,6 +332,17 @@ def run_shard(ctx):
             ctx.case(("multi", sorted(cfg.items()), groups, nss), w is None,
                      sample={"kind": "multi-sink", "cfg": cfg, "bindings_per_sink": [len(n) for n in nss]})
             continue
+        if i % 7 == 3:
+            cfg, stmts, ns = dataset_as_triples_case(rng)
+            w = judge_dataset_as_triples(cfg, stmts, ns)
+            ctx.observe("dataset-through-triples-stream-cases")
+            ctx.observe("prefix-events-compared", len(ns) * 2)
+            if w is not None and w["clause"] != "serializer-raised":
+                w.update({"cfg": cfg, "stmts": T.to_json(stmts), "ns": ns, "mode": "rdf11", "kind": "dataset-as-triples"})
+                ctx.violation(w)
+            ctx.case(("ds-triples", sorted(cfg.items()), stmts, ns), w is None and len({s[3] for s in stmts}) >= 2,
+                     sample={"kind": "dataset-through-triples-stream", "cfg": cfg, "bindings": ns, "graphs": len({s[3] for s in stmts})})
+            continue
         integ = "generic" if rng.random() < .5 else "rdflib"
         cfg, stmts, ns, mode = make_case(rng, integ)
         judge = judge_generic if integ == "generic" else judge_rdflib
@@ -329,6 +382,9 @@ def replay(w: dict):
         return r if r and r["clause"] != "serializer-raised" else None
     stmts = list(T.from_json(w["stmts"]))
     ns = [tuple(x) for x in w["ns"]]
+    if w.get("kind") == "dataset-as-triples":
+        r = judge_dataset_as_triples(cfg, stmts, ns)
+        return r if r and r["clause"] != "serializer-raised" else None
     judge = judge_generic if cfg["integration"] == "generic" else judge_rdflib
     r = judge(cfg, stmts, ns, w["mode"])
     return r if r and r["clause"] != "serializer-raised" else None
